@@ -211,7 +211,7 @@ def rule_options(ctx, ts, reg):
             ok = k in keys
             ctx.ob(R, t.rel, f"options.{k} @ {j2front.construct_path(stack)}", ok,
                    "" if ok else f"option `{k}` is not defined for language {t.lang}: StrictUndefined aborts generation on this path", node.lineno)
-    ctx.floor(R, n, 40)
+    ctx.floor(R, n, 8)
 
 
 C_SUPPORT_ONLY = re.compile(r"\b(NUNAVUT_[A-Z0-9_]+|nunavut[A-Z][A-Za-z0-9_]*)\b")
@@ -311,6 +311,107 @@ def rule_std_includes(ctx, px):
     ctx.ob(R, b.module.rel, f"{b.short} :: unions count as integer users (tag field)", ok, "", b.node.lineno)
 
 
+BOL, NOTBOL, UNK = "bol", "notbol", "unknown"
+DIRECTIVE = re.compile(r"#[ \t]*(ifdef|ifndef|if|elif|else|endif|define|undef|include|error|pragma)\b")
+
+
+def _text_effect(states, text, report):
+    """advance the line-start state over a static text chunk; report(directive, pos_state) for each directive"""
+    for m in DIRECTIVE.finditer(text):
+        before = text[:m.start()]
+        if "\n" in before:
+            line = before.rsplit("\n", 1)[1]
+            if line.strip(" \t") != "":
+                # something precedes the '#' on its line inside this very chunk: token pasting / stringification use '#'
+                # inside macro bodies, so only flag when the preceding char is a closing brace or semicolon
+                if line.rstrip()[-1:] in ("}", ";", ")"):
+                    report(m.group(0), {NOTBOL}, m.start())
+            continue
+        if before.strip(" \t") != "":
+            if before.rstrip()[-1:] in ("}", ";", ")"):
+                report(m.group(0), {NOTBOL}, m.start())
+            continue
+        report(m.group(0), set(states), m.start())
+    if "\n" in text:
+        tail = text.rsplit("\n", 1)[1]
+        return {BOL} if tail.strip(" \t") == "" else {NOTBOL}
+    if text.strip(" \t") == "":
+        return set(states)
+    return {NOTBOL}
+
+
+def _flow(N, body, states, report):
+    for node in body:
+        if isinstance(node, N.Output):
+            for e in node.nodes:
+                if isinstance(e, N.TemplateData):
+                    states = _text_effect(states, e.data, report)
+                else:
+                    states = {UNK}
+        elif isinstance(node, N.If):
+            outs = set()
+            outs |= _flow(N, node.body, set(states), report)
+            for el in node.elif_:
+                outs |= _flow(N, el.body, set(states), report)
+            if node.else_:
+                outs |= _flow(N, node.else_, set(states), report)
+            else:
+                outs |= set(states)
+            states = outs
+        elif isinstance(node, N.For):
+            s1 = _flow(N, node.body, set(states), lambda *a: None)
+            s2 = _flow(N, node.body, set(states) | s1, report)
+            states = set(states) | s1 | s2
+            if node.else_:
+                states |= _flow(N, node.else_, set(states), report)
+        elif isinstance(node, N.Macro):
+            _flow(N, node.body, {UNK}, report)
+        elif isinstance(node, (N.AssignBlock,)):
+            _flow(N, node.body, {UNK}, report)
+        elif isinstance(node, (N.CallBlock, N.FilterBlock)):
+            _flow(N, node.body, {UNK}, report)
+            states = {UNK}
+        elif isinstance(node, N.Block):
+            states = _flow(N, node.body, states, report)
+            if not node.body:
+                states = {UNK}  # filled in by a child template
+        elif isinstance(node, (N.Include,)):
+            states = {UNK}
+        # Assign / Import / FromImport / ExprStmt / Extends emit nothing
+    return states
+
+
+def rule_directive_bol(ctx, ts):
+    R = "R-C06-DIRECTIVE-BOL"
+    ctx.rule(
+        R,
+        "every C/C++ preprocessor directive a template emits starts its line on every template path: following the "
+        "text the lexer leaves after whitespace control (`-%}` / `{%-`), no path may reach a `#directive` directly "
+        "after non-blank static text (e.g. `}#ifdef`)",
+    )
+    N = ts.nodes
+    n = 0
+    for lang in ("c", "cpp"):
+        for t in ts.of_lang(lang):
+            found = []
+
+            def report(d, st, pos, _f=found):
+                _f.append((d, st))
+
+            _flow(N, t.ast.body, {BOL}, report)
+            for i, (d, st) in enumerate(found):
+                n += 1
+                ok = NOTBOL not in st
+                if not ok:
+                    ctx.ob(R, t.rel, f"directive `{d}` (#{i + 1} in template order)", False,
+                           "on some template path this directive is glued to the preceding token (whitespace control stripped the newline "
+                           "and the block in between can be empty): the generated header does not compile")
+            ok_all = all(NOTBOL not in st for _, st in found)
+            if found and ok_all:
+                ctx.ob(R, t.rel, f"{len(found)} chunk-leading directives start their line on every path", True, "")
+    ctx.floor(R, n, 8)
+
+
 def rule_pairing(ctx, ts):
     R = "R-C06-PAIRING"
     ctx.rule(
@@ -390,4 +491,5 @@ def run(ctx):
     rule_options(ctx, ts, reg)
     rule_omit_scope(ctx, ts, px)
     rule_std_includes(ctx, px)
+    rule_directive_bol(ctx, ts)
     rule_pairing(ctx, ts)
